@@ -340,7 +340,7 @@ VMLoop:
 			if bp == 0 {
 				bp = vm.curFrame.fn.NumLocals + 1
 			}
-			if numRet == 1 {
+			if numRet == 1 && !vm.curFrame.discardResult {
 				vm.stack[bp-1] = vm.stack[vm.sp-1]
 			} else {
 				vm.stack[bp-1] = Undefined
@@ -764,6 +764,7 @@ func (vm *VM) initCurrentFrame() {
 
 	vm.curFrame.errHandlers = nil
 	vm.curFrame.basePointer = 0
+	vm.curFrame.discardResult = false
 }
 
 func (vm *VM) clearCurrentFrame() {
@@ -1131,6 +1132,11 @@ func (vm *VM) xOpCallCompiled(cfunc *CompiledFunction, numArgs, flags int) error
 
 		if nextOp == OpReturn ||
 			(nextOp == OpPop && OpReturn == vm.curInsts[vm.ip+2+2]) {
+			if nextOp == OpPop {
+				// result of the call is not the result of the function, the
+				// re-used frame must return undefined whatever it returns.
+				vm.curFrame.discardResult = true
+			}
 			curBp := vm.curFrame.basePointer
 			copy(vm.stack[curBp:curBp+numLocals], vm.stack[basePointer:])
 			newSp := vm.sp - numArgs - 1
@@ -1155,6 +1161,7 @@ func (vm *VM) xOpCallCompiled(cfunc *CompiledFunction, numArgs, flags int) error
 	frame.freeVars = cfunc.Free
 	frame.errHandlers = nil
 	frame.basePointer = basePointer
+	frame.discardResult = false
 
 	vm.curFrame.ip = vm.ip + 2
 	vm.curInsts = cfunc.Instructions
@@ -1479,11 +1486,12 @@ start:
 }
 
 type frame struct {
-	fn          *CompiledFunction
-	freeVars    []*ObjectPtr
-	ip          int
-	basePointer int
-	errHandlers *errHandlers
+	fn            *CompiledFunction
+	freeVars      []*ObjectPtr
+	ip            int
+	basePointer   int
+	errHandlers   *errHandlers
+	discardResult bool
 }
 
 func getFrameSourcePos(frame *frame) parser.Pos {
